@@ -160,8 +160,23 @@ func runMutationSweep(deps *Deps, base *Prog, ids []string, kf *KnownFile, chunk
 		baseFind[id] = findingSet(runProperty(base, properties[id], kf))
 	}
 	killed, survived, invalid := 0, 0, 0
+	// optional: only the mutants listed (one per line: "<file>\t<fn>\t<what>") in $BSVET_MUT_FILE
+	var only2 map[string]bool
+	if f := os.Getenv("BSVET_MUT_FILE"); f != "" {
+		only2 = map[string]bool{}
+		if b, err := os.ReadFile(f); err == nil {
+			for _, l := range strings.Split(string(b), "\n") {
+				if l != "" {
+					only2[l] = true
+				}
+			}
+		}
+	}
 	for mi := lo; mi < hi; mi++ {
 		m := muts[mi]
+		if only2 != nil && !only2[strings.TrimPrefix(m.file, deps.Root+"/")+"\t"+m.fn+"\t"+m.what] {
+			continue
+		}
 		if only != "" && !strings.Contains(m.fn, only) && !strings.Contains(m.file, only) {
 			continue
 		}
